@@ -31,11 +31,23 @@ type StrV struct {
 }
 
 type PtrV struct {
-	Obj  ObjID
-	Path []PathElem
+	Obj   ObjID
+	Path  []PathElem
+	NilIf *Term // when non-nil: the pointer is nil exactly under this condition, otherwise it points to Obj
 }
 
 func (p PtrV) IsNil() bool { return p.Obj == 0 }
+
+// ptrNilTerm: the condition under which p is nil.
+func (e *Engine) ptrNilTerm(p PtrV) *Term {
+	if p.Obj == 0 {
+		return e.tc.True
+	}
+	if p.NilIf == nil {
+		return e.tc.False
+	}
+	return p.NilIf
+}
 
 type SliceV struct {
 	Obj  ObjID
@@ -70,8 +82,9 @@ type ChanV struct{ Obj ObjID }
 
 // ErrV is an opaque non-nil error value created by fmt.Errorf / errors.New or a stub.
 type ErrV struct {
-	ID  string // identity (format string / site)
-	Msg StrV
+	ID       string // identity (format string / site)
+	Msg      StrV
+	Sentinel bool // created by a package initialiser (a value callers compare against)
 }
 
 // LocV is *time.Location.
@@ -83,7 +96,7 @@ type LocV struct {
 // BV64 terms (Go int).
 type TimeV struct {
 	Y, M, D, H, Mi, S, Ns *Term
-	Loc                   int  // 1 UTC, 2 Local
+	UTC                   *Term // Bool: the value is in UTC (true) or in time.Local (false)
 	Year0                 bool // result of time.Parse without a date (year 0, Jan 1)
 	Inst                  *Term // abstract instant (BV64 nanoseconds on an arbitrary monotonic axis); civil fields unused when set
 }
@@ -301,7 +314,7 @@ func (e *Engine) zero(t types.Type) Value {
 
 func (e *Engine) zeroTime() TimeV {
 	c := e.tc
-	return TimeV{Y: c.BV(1, 64), M: c.BV(1, 64), D: c.BV(1, 64), H: c.BV(0, 64), Mi: c.BV(0, 64), S: c.BV(0, 64), Ns: c.BV(0, 64), Loc: 1}
+	return TimeV{Y: c.BV(1, 64), M: c.BV(1, 64), D: c.BV(1, 64), H: c.BV(0, 64), Mi: c.BV(0, 64), S: c.BV(0, 64), Ns: c.BV(0, 64), UTC: c.True}
 }
 
 // ---------------------------------------------------------------- merge
@@ -349,8 +362,25 @@ func (e *Engine) mergeVal(g *Term, a, b Value) (Value, bool) {
 		return StrV{B: out}, true
 	case PtrV:
 		y, ok := b.(PtrV)
-		if !ok || x.Obj != y.Obj || !pathEq(x.Path, y.Path) {
+		if !ok {
 			return nil, false
+		}
+		nx, ny := e.ptrNilTerm(x), e.ptrNilTerm(y)
+		switch {
+		case x.Obj == y.Obj && pathEq(x.Path, y.Path):
+		case x.Obj == 0:
+			x.Obj, x.Path = y.Obj, y.Path
+		case y.Obj == 0:
+		default:
+			return nil, false
+		}
+		n := e.tc.Ite(g, nx, ny)
+		if n.IsFalse() {
+			x.NilIf = nil
+		} else if n.IsTrue() {
+			return PtrV{}, true
+		} else {
+			x.NilIf = n
 		}
 		return x, true
 	case SliceV:
@@ -434,10 +464,21 @@ func (e *Engine) mergeVal(g *Term, a, b Value) (Value, bool) {
 		return x, true
 	case ErrV:
 		y, ok := b.(ErrV)
-		if !ok || x.ID != y.ID {
+		if !ok {
 			return nil, false
 		}
-		return x, true
+		if x.ID == y.ID {
+			return x, true
+		}
+		if x.Sentinel || y.Sentinel {
+			return nil, false
+		}
+		// two diagnostic errors: their identity is never observed, only their being non-nil
+		id := x.ID
+		if y.ID < id {
+			id = y.ID
+		}
+		return ErrV{ID: id, Msg: StrV{Opaque: true, Note: "error text"}}, true
 	case LocV:
 		y, ok := b.(LocV)
 		if !ok || x != y {
@@ -446,16 +487,17 @@ func (e *Engine) mergeVal(g *Term, a, b Value) (Value, bool) {
 		return x, true
 	case TimeV:
 		y, ok := b.(TimeV)
-		if !ok || x.Loc != y.Loc || x.Year0 != y.Year0 || (x.Inst == nil) != (y.Inst == nil) {
+		if !ok || x.Year0 != y.Year0 || (x.Inst == nil) != (y.Inst == nil) {
 			return nil, false
 		}
 		c := e.tc
 		if x.Inst != nil {
 			x.Inst = c.Ite(g, x.Inst, y.Inst)
+			x.UTC = c.Ite(g, x.UTC, y.UTC)
 			return x, true
 		}
 		return TimeV{Y: c.Ite(g, x.Y, y.Y), M: c.Ite(g, x.M, y.M), D: c.Ite(g, x.D, y.D), H: c.Ite(g, x.H, y.H),
-			Mi: c.Ite(g, x.Mi, y.Mi), S: c.Ite(g, x.S, y.S), Ns: c.Ite(g, x.Ns, y.Ns), Loc: x.Loc, Year0: x.Year0}, true
+			Mi: c.Ite(g, x.Mi, y.Mi), S: c.Ite(g, x.S, y.S), Ns: c.Ite(g, x.Ns, y.Ns), UTC: c.Ite(g, x.UTC, y.UTC), Year0: x.Year0}, true
 	case RegexpV:
 		y, ok := b.(RegexpV)
 		if !ok || x.Pat != y.Pat {
